@@ -196,3 +196,21 @@ def quiet():
         yield
     finally:
         sys.stdout = old
+
+
+def library_failure(e):
+    """(site, witness class) if the exception comes out of the library under test, else None"""
+    tb = e.__traceback__
+    last = None
+    while tb is not None:
+        last = tb
+        tb = tb.tb_next
+    root = os.path.join(REPO, "sparseSpACE") + os.sep
+    if last is not None:
+        fn = last.tb_frame.f_code.co_filename
+        if os.path.abspath(fn).startswith(os.path.abspath(root)):
+            mod = "sparseSpACE." + os.path.splitext(os.path.basename(fn))[0]
+            return "%s:%s" % (mod, last.tb_frame.f_code.co_name), "%s-in-%s" % (type(e).__name__, last.tb_frame.f_code.co_name)
+    if isinstance(e, AttributeError) and getattr(e, "obj", None) is not None and str(getattr(type(e.obj), "__module__", "")).startswith("sparseSpACE"):
+        return "%s:%s" % (type(e.obj).__module__, type(e.obj).__name__), "missing-attribute-%s" % getattr(e, "name", "?")
+    return None
